@@ -25,6 +25,10 @@
 //!                 stack (64 bytes at 0x10000) and the 2-byte code region; every byte is a function of its address: ff 23 at 0x400000, (a * 131 + 7) mod 256 elsewhere
 //!                                         -> U <the u64 the instruction pointer is updated to> | U -
 //!  A <hex of a function name>            -> A <cc> <argument names hex,...> | A -   (x86 argument recovery, unstable_all)
+//!  T <spec>   (round 5) the thread loop of into_process_state: a D-style spec restricted to cpu= os= mem64= B= T= X= M= U= R=
+//!             (no symbol files), processed under stable_basic and rendered
+//!                                         -> T req=<requesting_thread|-> <tid>:<info 0 Ok|1 MissingContext|2 DumpThreadSkipped|3 other>:
+//!                                            <instruction>/<trust>,...:<unloaded offsets of frame 0 joined by +>,... ; ...
 //! A panic anywhere inside a case is answered `P;;<message>` by vharness::for_each_case.
 #[path = "../dumpspec.rs"]
 mod dumpspec;
@@ -598,12 +602,62 @@ fn run_args(t: &mut Toks) -> String {
     }
 }
 
+/// T case: see the header.
+fn run_threads(spec: &Spec) -> String {
+    let state = state_of(spec);
+    render(&state);
+    let mut parts: Vec<String> = vec![];
+    for cs in &state.threads {
+        let info = match cs.info {
+            minidump_unwind::CallStackInfo::Ok => 0,
+            minidump_unwind::CallStackInfo::MissingContext => 1,
+            minidump_unwind::CallStackInfo::DumpThreadSkipped => 2,
+            _ => 3,
+        };
+        let frames: Vec<String> = cs
+            .frames
+            .iter()
+            .map(|f| {
+                let t = match f.trust {
+                    minidump_unwind::FrameTrust::None => 0,
+                    minidump_unwind::FrameTrust::Scan => 1,
+                    minidump_unwind::FrameTrust::CfiScan => 2,
+                    minidump_unwind::FrameTrust::FramePointer => 3,
+                    minidump_unwind::FrameTrust::CallFrameInfo => 4,
+                    minidump_unwind::FrameTrust::PreWalked => 5,
+                    minidump_unwind::FrameTrust::Context => 6,
+                };
+                format!("{}/{}", f.instruction, t)
+            })
+            .collect();
+        let offs: Vec<String> = cs
+            .frames
+            .iter()
+            .map(|f| {
+                let mut v: Vec<u64> = f.unloaded_modules.values().flat_map(|s| s.iter().copied()).collect();
+                v.sort();
+                v.iter().map(|x| x.to_string()).collect::<Vec<_>>().join("+")
+            })
+            .collect();
+        parts.push(format!("{}:{}:{}:{}", cs.thread_id, info, frames.join(","), offs.join(",")));
+    }
+    format!(
+        "T req={} {}",
+        state.requesting_thread.map(|i| i.to_string()).unwrap_or_else(|| "-".into()),
+        parts.join(";")
+    )
+}
+
 fn run(line: &str) -> String {
     let mut t = Toks::new(line);
     match t.str() {
         "D" | "F" => {
             let spec = parse_spec(line.split_ascii_whitespace().skip(1));
             run_whole(&spec)
+        }
+        "T" => {
+            let spec = parse_spec(line.split_ascii_whitespace().skip(1));
+            run_threads(&spec)
         }
         "L" => run_limits(&mut t),
         "G" => run_guard(&mut t),
